@@ -22,7 +22,7 @@ from .. import cardtext, conv, core, t4file, tlc
 SEED_A = """seed deck a
 1 1 -2.7 -1 2 imp:n=1
 2 2 0.05 -1 -2 imp:n=1
-3 0 1 -3 imp:n=1
+3 1 -2.7 1 -3 imp:n=1
 4 0 3 #5 imp:n=0
 5 like 1 but rho -1.5 trcl=( 20 0.5 0 )
 
@@ -112,10 +112,14 @@ def blocks_text(t4text):
                  tuple((n, mcnp_float(v)) for n, v in it['iso']), it['name'].split('_')[0])
             key[it['name']] = k
             items.append(k)
-    rows = []
+    # compositions and associations by CONTENT: two compositions with the same content (one material at one density,
+    # spelled '-2.7' on one card and '-2.7e0' on another) are one composition, their volumes one association
+    rows = {}
     for row in (t4['geomcomp'] or []):
-        rows.append((repr(key.get(row[0], row[0])), row[1:]))
-    return geom, repr((sorted(map(repr, items)), sorted(rows)))
+        k = repr(key.get(row[0], row[0]))
+        vols = [v for v in row[1:] if v.lstrip('-').isdigit()]
+        rows.setdefault(k, set()).update(vols[1:] if len(vols) > 1 and int(vols[0]) == len(vols) - 1 else vols)
+    return geom, repr((sorted(set(map(repr, items))), sorted((k, sorted(v, key=int)) for k, v in rows.items())))
 
 
 def impl_cards(text):
